@@ -301,13 +301,16 @@ class RelayWorld:
         if st is None:
             return out
         owner = getattr(self, "cid_owner", {})
+        by_task, by_addr = {}, {}
+        for c in self.clients:
+            by_task.setdefault(id(c.task), []).append(c)
+            by_addr.setdefault(c.addr, []).append(c)
         for cid, subs in list(st.clients.items()):
             s = str(cid)
             task = owner.get(s)
             addr = s.rsplit("-", 1)[0]
-            for c in self.clients:
-                if (task is not None and c.task is task) or (task is None and c.addr == addr):
-                    out.setdefault(c.idx, []).extend(list(subs.keys()))
+            for c in (by_task.get(id(task), []) if task is not None else by_addr.get(addr, [])):
+                out.setdefault(c.idx, []).extend(list(subs.keys()))
         return out
 
     async def main(self, _sim):
